@@ -13,7 +13,7 @@ from .concretize import concretize_bindings
 from .contracts import REGISTRY, Contract, eval_clause
 from .ctx import STATS, Ctx, EngineError, Infeasible, PathEnd, Unsupported
 from .interp import Interp, PyRaise, _z, exc_class
-from .snapshot import snapshot
+from .snapshot import clone_graph, snapshot
 from .values import SObj
 
 MAX_PATHS = 20000
@@ -128,7 +128,7 @@ def run_path(con: Contract, case, prefix, worklist, report: FunctionReport, plan
             ctx.assume(_z(eval_clause(I, lam, bindings)))
         if report.pre_satisfiable is None:
             report.pre_satisfiable = ctx.is_feasible()
-        ctx.entry_syms = dict(bindings)
+        ctx.entry_syms = clone_graph(bindings)
         old_view = snapshot(list(bindings.values()))
         from . import asyncrule, looprule
 
@@ -229,6 +229,12 @@ def check_exit(I, con, bindings, old_view, result, raised, exit_kind, self_obj, 
         oldf = old_view.get(self_obj.oid, {})
         for fld in sorted(set(oldf) | set(self_obj.fields)):
             if fld in allowed:
+                continue
+            if fld + ".*" in allowed:
+                # contents may change, the binding may not
+                a, b_ = oldf.get(fld), self_obj.fields.get(fld)
+                same = getattr(a, "oid", None) is not None and getattr(a, "oid", None) == getattr(b_, "oid", None)
+                check(f"frame.{fld}.binding", bool(same))
                 continue
             if fld not in oldf or fld not in self_obj.fields:
                 check(f"frame.{fld}", False)
